@@ -152,6 +152,22 @@ pub fn countersig_chain_form(d: usize, shape: usize, form: usize) -> Vec<u8> {
     sig
 }
 
+/// `crossings` runs of `run` counter-signature levels carried in unprotected headers, consecutive
+/// runs separated by one level carried in a protected header (each protected byte string is parsed
+/// on its own, with a recursion budget of its own: bounds that are fine for either kind of nesting
+/// alone can multiply when the two are mixed this way).
+pub fn countersig_runs(crossings: usize, run: usize) -> Vec<u8> {
+    let mut sig = vec![0x83, 0x40, 0xa0, 0x40];
+    for _ in 0..crossings {
+        for _ in 0..run {
+            sig = [&[0x83u8, 0x40, 0xa1, 0x07][..], &sig, &[0x40]].concat();
+        }
+        let hdr = [&[0xa1u8, 0x07][..], &sig].concat();
+        sig = [&[0x83u8][..], &bstr(&hdr), &[0xa0, 0x40]].concat();
+    }
+    sig
+}
+
 pub fn countersig_chain(d: usize, shape: usize) -> Vec<u8> {
     countersig_chain_form(d, shape, 0)
 }
@@ -203,6 +219,12 @@ fn wide_and_deep(width: usize, depth: usize, at: usize, maps: bool) -> Vec<u8> {
 
 fn gen_bomb(g: &mut Gen, ctx: &mut Ctx) -> Vec<u8> {
     let max_len: usize = if std::env::var("VERIF_TIER_INTERNAL").ok().as_deref() == Some("thorough") { 4 << 20 } else { 1 << 20 };
+    if g.ratio(1, 10) {
+        let crossings = *g.pick(&[1usize, 2, 3, 5, 8, 9, 10, 12, 20]);
+        let run = *g.pick(&[3usize, 7, 8, 60, 100, 110, 120, 124, 126]);
+        ctx.classf(format!("bomb:countersig-runs:{}", if crossings * run >= 500 { "long" } else { "short" }));
+        return chain_in_carrier(&countersig_runs(crossings, run), g.below(9));
+    }
     if g.ratio(1, 8) {
         let width = *g.pick(&[2usize, 8, 9, 16, 24, 64, 128, 255, 256, 300]);
         let depth = (*g.pick(&[4usize, 8, 12, 16, 22, 30, 48, 64, 100, 200])).min(max_len / 2 / width).max(1);
